@@ -46,7 +46,9 @@ class _IMTLGWeighting(_Weighting):
             v = torch.ones(matrix.shape[0], device=matrix.device, dtype=matrix.dtype)
 
         v_sum = v.sum()
-        if v_sum.abs() < 1e-12:
+        # The test is relative to the magnitude of v (which scales like the inverse of the matrix),
+        # so that the aggregation stays positively homogeneous whatever the scale of the matrix.
+        if v_sum.abs() <= 1e-12 * v.abs().sum():
             weights = torch.zeros_like(v)
         else:
             weights = v / v_sum
